@@ -104,6 +104,9 @@ def step_cases(tier, second=True):
         for ndev, pr in P.deviations((shp,), bound, second=("fail", "error", "undefined", "pending", "skip")):
             for cfg in PLAIN_CFGS:
                 yield ((pr[0], P.SECOND_FEATURE) if second else pr, cfg, None, None, False)
+            if ndev and sz <= (4 if quick else 6) and "'fail'" in repr(pr) or "'error'" in repr(pr):
+                # continue_after_failed_step: later passing steps must not wash out an earlier failure
+                yield ((pr[0], P.SECOND_FEATURE) if second else pr, "cafs", None, None, False)
     # tagged variants: one tag on one element, <= 1 outcome deviation, the tag-sensitive configurations
     for si, shp in enumerate(shapes):
         if quick and (P.size(shp) > 4 or len(shp[3]) > 2):
